@@ -3,7 +3,28 @@ import common, schema, histgen, random
 THEOREMS = ["C19_find_refines", "C19_own_refs", "C19_value_copy", "C19_destroy_other", "C19_copy_independent", "C19_shallow_copy_refuted", "C19_nonvacuous"]
 EXTRA_PROPERTY_FILES = ("Properties_hash",)   # obligations over the regenerated Gen_hash.v (translator/hashes.py)
 
-def gen_scenario(sch, rng, with_file):
+def dup_tables(data, rng):
+    """the same file with one entry of the ip / classtype / name_rdata table of every block repeated at the end of the table (legal
+    content: the reader accepts it; every stored index still denotes the same value)"""
+    import refcbor
+    t = refcbor.parse_all(data)
+    n = 0
+    probes = []          # (block number, table command, value text) of every repeated entry
+    for bi, b in enumerate(t[1][2][1]):
+        for kk, vv in b[1]:
+            if kk[0] == "u" and kk[1] == 2 and vv[0] == "m":
+                for tk, tv in vv[1]:
+                    if tk[0] == "u" and tk[1] in (0, 1, 2) and tv[0] == "a" and tv[1]:
+                        picks = [tv[1][rng.randrange(len(tv[1]))]] + ([tv[1][0]] if rng.random() < 0.3 else [])
+                        for e in picks:
+                            tv[1].append(e); n += 1
+                            if tk[1] in (0, 2) and e[0] == "b": probes.append((bi, "ip" if tk[1] == 0 else "nr", e[1].hex() or "-"))
+                            elif tk[1] == 1 and e[0] == "m":
+                                d = dict((refcbor.ival(a), refcbor.ival(c)) for a, c in e[1])
+                                probes.append((bi, "ct", "R[ N%d N%d ]" % (d.get(0, 0), d.get(1, 0))))
+    return (refcbor.encode(t), probes) if n else None
+
+def gen_scenario(sch, rng, with_file, dup_file=None):
     """returns (ops, flat_ops): ops use copy/move/assign; flat_ops rebuild every copied block from scratch by replaying the
     commands that produced its content.  Observable commands are preceded by 'M <k>' in both."""
     bp = histgen.gen_bp(sch, rng, masks=(histgen.ALL_QR_BITS, histgen.ALL_SIG_BITS, 3, 3), tps=1000, maxi=10000)
@@ -24,6 +45,10 @@ def gen_scenario(sch, rng, with_file):
         spx, _ = histgen.simulate(h)
         nblocks[0] = len(spx.outputs[0]["blocks"])
         if nblocks[0] == 0: with_file = False
+    fileno = 0
+    if with_file and dup_file is not None:
+        # the crafted file (tables with repeated entries) is registered as output 1 and the blocks are read from it
+        pre = dup_file["pre"] + ["X addout " + dup_file["data"].hex()]; nblocks[0] = dup_file["nblocks"]; file_aecs[:] = dup_file["aecs"]; fileno = 1
     names = ["a", "b", "c", "d"]
     def both(cmd): ops.append(cmd); flat.append(cmd)
     def observe(cmd):
@@ -43,7 +68,7 @@ def gen_scenario(sch, rng, with_file):
     def live(): return [n for n in names if hist.get(n) is not None]
     def start(n):
         if with_file and rng.random() < 0.5:
-            cmd = "fromfile %s 0 %d" % (n, rng.randrange(0, nblocks[0]))
+            cmd = "fromfile %s %d %d" % (n, fileno, rng.randrange(0, nblocks[0]))
             both("B " + cmd.replace("fromfile %s" % n, "fromfile %s" % n)); hist[n] = [("fromfile", cmd.split(" ", 2)[2])]; kindr[n] = True
         else:
             k = "rnew" if rng.random() < 0.3 else "new"
@@ -117,8 +142,50 @@ def run(ctx):
     for i in range(250 if tier == "quick" else 8000):
         ops, flat = gen_scenario(sch, rng, with_file=(i % 3 == 0))
         cases.append({"id": "s%d" % i, "script": ops, "flat": flat, "expect": None, "meta": {"kind": "file" if i % 3 == 0 else "built"}})
-    scripts = [(c["id"], c["script"]) for c in cases]
+    # blocks read from files whose tables hold the same entry twice: copies must resolve look-ups like the block the reader returned
+    # (implementation + rebuilt-block oracle only: the value-level table model of Block.v describes de-duplicated tables)
+    dups = []
+    for i in range(12 if tier == "quick" else 300):
+        h = histgen.gen_history(sch, rng, nops=rng.choice([8, 15]), rotations=False, maxi=rng.choice([2, 3, 10000]), nsets=1,
+                                masks=(histgen.ALL_QR_BITS, histgen.ALL_SIG_BITS, 3, 3))
+        h["ops"] = [o for o in h["ops"] if o[0] in ("qr", "aec", "mm", "wb")]
+        pre = histgen.to_script(sch, h, read_back=False)
+        r0, _, _ = common.run_both([("p", pre)], ctx["impl"]["drv"], ctx["mdl"], batch=1, impl_only=True)
+        outs = [l for l in r0.get("p", []) if l.startswith("out ") and l[4:] != "-"]
+        if not outs: continue
+        dt = dup_tables(bytes.fromhex(outs[-1][4:]), rng)
+        if dt is None: continue
+        data, probes = dt
+        spx, _ = histgen.simulate(h)
+        nb = len(spx.outputs[0]["blocks"])
+        if nb == 0: continue
+        dups.append({"pre": pre, "data": data, "nblocks": nb, "aecs": [o[2] for o in h["ops"] if o[0] == "aec"], "probes": probes})
+    for i, d in enumerate(dups):
+        # targeted: every copy route from a block the reader returned, then a look-up (de-duplicating add) of every repeated value
+        for j in sorted(set(p[0] for p in d["probes"])):
+            if j >= d["nblocks"]: continue
+            head = d["pre"] + ["X addout " + d["data"].hex()]
+            ops = head + ["B fromfile0 a 1 %d" % j, "B copy b a", "B fromfile0 s 1 %d" % j, "B move c s", "B fromfile0 d 1 %d" % (d["nblocks"] - 1), "B assign d a",
+                          "B fromfile0 e 1 %d" % (d["nblocks"] - 1), "B fromfile0 s2 1 %d" % j, "B massign e s2", "B destroy a"]
+            flat = head + ["B fromfile0 %s 1 %d" % (n, j) for n in ("b", "c", "d", "e")]     # the reference: the objects the reader returned
+            k = 0
+            for n in ("b", "c", "d", "e"):
+                for (bj, cmd, val) in d["probes"]:
+                    if bj != j: continue
+                    k += 1
+                    for l in (ops, flat): l += ["M %d" % k, "B %s %s %s" % (cmd, n, val), "M end"]
+                k += 1
+                for l in (ops, flat): l += ["M %d" % k, "B dump %s" % n, "M end"]
+            cases.append({"id": "dt%d_%d" % (i, j), "script": ops, "flat": flat, "expect": None, "no_model": True, "meta": {"kind": "file-with-repeated-table-entries/targeted"}})
+        for rep_ in range(3):
+            ops, flat = gen_scenario(sch, rng, True, dup_file=d)
+            cases.append({"id": "d%d_%d" % (i, rep_), "script": ops, "flat": flat, "expect": None, "no_model": True, "meta": {"kind": "file-with-repeated-table-entries"}})
+    scripts = [(c["id"], c["script"]) for c in cases if not c.get("no_model")]
     impl, model, crashes = common.run_both(scripts, ctx["impl"]["drv"], ctx["mdl"], batch=10)
+    nm = [(c["id"], c["script"]) for c in cases if c.get("no_model")]
+    if nm:
+        i2, _, _ = common.run_both(nm, ctx["impl"]["drv"], ctx["mdl"], batch=10, impl_only=True)
+        impl.update(i2); model.update(i2)
     # the oracle: the same observable commands on blocks rebuilt from scratch (implementation only)
     flat_scripts = [(c["id"], c["flat"]) for c in cases]
     fimpl, _, _ = common.run_both(flat_scripts, ctx["impl"]["drv"], ctx["mdl"], batch=10, impl_only=True)
